@@ -27,8 +27,19 @@ Fixpoint canon_go (upper : bool) (s : bytes) : bytes :=
 
 (* textproto.CanonicalMIMEHeaderKey: a key holding any byte that is not a token byte
    (space included) is returned unchanged *)
-Definition canonical_key (s : bytes) : bytes :=
+Definition mime_key (s : bytes) : bytes :=
   if forallb is_tchar s then canon_go true s else s.
+
+Definition colon_b : byte := ":"%byte.
+Definition is_pseudo_name (s : bytes) : bool :=
+  match s with c :: _ => beqb c colon_b | [] => false end.
+
+(* sort.go canonicalKey: the form in which keys are matched against the order list.  Pseudo-header
+   names (leading colon, which CanonicalMIMEHeaderKey would leave untouched) are lower-cased.
+   strings.ToLower is modelled on ASCII input; an order entry that starts with a colon AND holds
+   non-ASCII bytes is outside the modelled domain (it cannot name a pseudo-header anyway). *)
+Definition canonical_key (s : bytes) : bytes :=
+  if is_pseudo_name s then to_lower s else mime_key s.
 
 (* SortKeyValues builds  order[Canonical(key)] = i  in list order: a later duplicate
    overwrites an earlier one, so the LAST occurrence of a name decides its index.
